@@ -147,7 +147,8 @@ class System:
     def key(self, impl, ref):
         memo = tuple(sorted((n, tuple(sorted((float(t), round(float(v), 9)) for t, v in d.items())))
                             for n, d in impl.m.memo.items() if n in ("K", "X", "F", "S", "Y", "W")))
-        return (tuple(sorted(ref.items())), memo)
+        hidden = (explore.hidden_shape(impl.m),) + tuple(explore.hidden_shape(impl.env[n]) for n in sorted(impl.env) if hasattr(impl.env[n], "__dict__"))
+        return (tuple(sorted(ref.items())), memo, hidden)
 
 
 SYSTEM = System()
